@@ -5,6 +5,7 @@ import Rcgen.Spec.Pem
 import Rcgen.Model.CsrParse
 import Rcgen.Model.Keys
 import Rcgen.Model.Cli
+import Rcgen.Spec.Validate
 /- line-protocol driver: one request per line, one response per line -/
 namespace Driver
 open Rcgen Rcgen.Model Sexp
@@ -245,6 +246,32 @@ def handle (op : String) (args : List Sexp) : R Sexp := do
           .list (.atom "files" :: plan.files.map ofBytes)])
       | .error e => pure (.list [.atom "err", .atom (errName e)])
     | (t, _) => throw s!"bad opts {t}"
+  | "validate-chain", [anchorChecks, kuCheck, .list certs, t, u] => do
+    -- certs: ((params) xDER) ..., anchor first
+    let ac ← anchorChecks.asBool
+    let kc ← kuCheck.asBool
+    let u ← match ← u.asAtom with
+      | "server" => pure Spec.Purpose.serverAuth | "client" => pure Spec.Purpose.clientAuth
+      | s => throw s!"bad purpose {s}"
+    let t ← t.asInt
+    let mut ps : List CertParams := []
+    let mut tbss : List Spec.TbsCert := []
+    let mut decodeOk := true
+    for c in certs do
+      match c with
+      | .list [p, der] =>
+        ps := ps ++ [← decParams p]
+        match Spec.splitSigned (← der.asBytes) with
+        | some (tbs, _, _) =>
+          match Spec.decodeTbsCert tbs with
+          | some x => tbss := tbss ++ [x]
+          | none => decodeOk := false
+        | none => decodeOk := false
+      | _ => throw "bad chain element"
+    let specV := decodeOk && Spec.validate ac kc tbss t u
+    let expV := Spec.expectedVerdict ac kc ps t u
+    pure (.list [.list [.atom "spec", ofBool specV], .list [.atom "expected", ofBool expV],
+                 .list [.atom "decoded", ofBool decodeOk]])
   | "spki", [k] => do pure (ofBytes (spkiDer (← decKey k)))
   | "sha", [k, b] => do
     let b ← b.asBytes
